@@ -1,15 +1,19 @@
 #!/bin/bash
-# tools/seed_matrix.sh <seed-id> <check ids...>: apply seeded/<seed-id>/patch.diff to /repo, run the checks, undo
+# tools/seed_matrix.sh <seed-id> <check ids...>: run checks against a scratch copy of /repo with the seeded change applied
+# (/repo itself is not touched; VERIF_REPO points the checks at the copy)
 sid="$1"; shift
 cd /verif
-git -C /repo apply /verif/seeded/$sid/patch.diff || { echo "$sid: patch does not apply"; exit 2; }
+scratch=/tmp/seedrepo-$sid-$$
+rm -rf $scratch; mkdir -p $scratch
+git -C /repo archive HEAD | tar -x -C $scratch
+(cd $scratch && git init -q . && git apply /verif/seeded/$sid/patch.diff) || { echo "$sid: patch does not apply"; rm -rf $scratch; exit 2; }
 line="$sid:"
 for c in "$@"; do
-  out=$(timeout 900 ./check "$c" 2>&1)
+  out=$(VERIF_REPO=$scratch timeout 1200 ./check "$c" 2>&1)
   if echo "$out" | grep -q "VIOLATION"; then
      if echo "$out" | grep "VIOLATION" | head -1 | grep -q "no-failing-input-found"; then r="caught(no-input)"; else r="CAUGHT"; fi
   elif echo "$out" | grep -q "OK property"; then r="missed"; else r="error"; fi
   line="$line $c=$r"
 done
-git -C /repo checkout -- .
+rm -rf $scratch
 echo "$line"
